@@ -252,24 +252,44 @@ theorem boxed_hex_exact {hex : List Nat} (bp : Nat) (hc : Bytes hex) :
         simp [hs]
   · simp [hl]
 
-/-! ### DESIGN §7 rows 2 and 9 (primarily C12): the LE entry points of `Odd` / `NonZero` -/
+/-! ### `Odd::<Uint>::from_be_hex` / `from_le_hex` (DESIGN §7 row 2, repaired by fix dd30bc0; the
+    `NonZero` byte-array twin, row 9 / fix ad61352, is `decode_le_exact` + `NonZero::new`, C12) -/
 
-/-
-FULL STATEMENT (unproved, FALSE of the code as written):
-  ∀ n hex, Bytes hex → oddFromLeHexAsWritten n hex = oddFromLeHexSpec n hex
-`Odd::<Uint>::from_le_hex` (src/odd.rs:73-77) calls `Uint::from_be_hex`; the model mirrors that.
-Proved instead: what the code does, and the negation of the full statement with its witness.
--/
-theorem odd_from_le_hex_as_written (n : Nat) (hex : List Nat) :
-    oddFromLeHexAsWritten n hex = oddFromBeHex n hex := rfl
+/-- `Odd::from_le_hex` = the LITTLE-endian positional value of the text, accepted iff it is odd
+    (panic for a wrong length, a non-hex character or an even value) -/
+theorem odd_from_le_hex_exact {n : Nat} {hex : List Nat} (hc : Bytes hex) :
+    (oddFromLeHex n hex).map val = (specFromLeHex n hex).bind oddOnly ∧
+    (∀ l, oddFromLeHex n hex = some l → WF l ∧ l.length = n) := by
+  have ⟨hv, hw⟩ := hex_le_exact (n := n) hc
+  unfold oddFromLeHex
+  rw [← hv]
+  cases h : fromLeHex n hex with
+  | none => exact ⟨rfl, fun l hl => by cases hl⟩
+  | some l =>
+    simp only [Option.map_some, Option.bind_some, oddOnly, headD_mod_two l]
+    by_cases ho : val l % 2 = 1
+    · simp only [ho, if_true, Option.map_some, true_and]
+      intro l' hl'; injection hl' with hl'; subst hl'; exact hw l h
+    · simp only [ho, if_false, Option.map_none, true_and]
+      intro l' hl'; cases hl'
 
-/-- witness: the LE text "0100000000000000" (value 1, odd) is rejected, and the LE text
-    "0000000000000001" (value 2^56, even) is accepted as the odd value 1 -/
-theorem odd_from_le_hex_violates :
-    oddFromLeHexAsWritten 1 ([48, 49] ++ List.replicate 14 48) = none ∧
-    oddFromLeHexSpec 1 ([48, 49] ++ List.replicate 14 48) = some [1] ∧
-    oddFromLeHexAsWritten 1 (List.replicate 14 48 ++ [48, 49]) = some [1] ∧
-    oddFromLeHexSpec 1 (List.replicate 14 48 ++ [48, 49]) = none := by decide +kernel
+/-- `Odd::from_be_hex`: the big-endian positional value, accepted iff odd -/
+theorem odd_from_be_hex_exact {n : Nat} {hex : List Nat} (hc : Bytes hex) :
+    (oddFromBeHex n hex).map val = (specFromBeHex n hex).bind oddOnly := by
+  unfold oddFromBeHex
+  rw [← fromBeHex_val hc]
+  cases h : fromBeHex n hex with
+  | none => rfl
+  | some l =>
+    simp only [Option.map_some, Option.bind_some, oddOnly, headD_mod_two l]
+    by_cases ho : val l % 2 = 1 <;> simp [ho]
+
+/-- the former witnesses of the defect, now accepted / rejected by the little-endian reading:
+    LE text "0100000000000000" is the odd value 1; LE text "0000000000000001" is 2^56, even -/
+theorem odd_from_le_hex_witness :
+    oddFromLeHex 1 ([48, 49] ++ List.replicate 14 48) = some [1] ∧
+    oddFromLeHex 1 (List.replicate 14 48 ++ [48, 49]) = none ∧
+    oddFromBeHex 1 (List.replicate 14 48 ++ [48, 49]) = some [1] := by decide +kernel
 
 /-! ## T16.3 — boxed decoders: documented errors exactly -/
 
